@@ -22,6 +22,8 @@ import Mathlib.Analysis.Calculus.Deriv.Add
 import Mathlib.Analysis.Calculus.Deriv.Mul
 import Mathlib.Analysis.Calculus.Deriv.Inv
 import Mathlib.Analysis.SpecialFunctions.Log.Deriv
+import Mathlib.Analysis.SpecialFunctions.ExpDeriv
+import Mathlib.Analysis.Calculus.Deriv.Comp
 import Mathlib.Tactic.Ring
 import Mathlib.Tactic.Linarith
 import Mathlib.Tactic.FieldSimp
@@ -270,6 +272,12 @@ theorem loglikGrad_ofFn (s : ℝ) (a : Fin n → ℝ) (B dK : Matrix (Fin n) (Fi
     loglikGradEntry_ofFn]
   exact mul_one _
 
+theorem loglikGrad_ofFn_scale (s c : ℝ) (a : Fin n → ℝ) (B dK : Matrix (Fin n) (Fin n) ℝ) :
+    (loglikGrad s (List.ofFn a) (ofFnM B) [ofFnM dK] [c]).getD 0 0
+      = -s * (-(a ⬝ᵥ (dK *ᵥ a)) + Matrix.trace (B * dK)) * c := by
+  simp only [loglikGrad, List.zipWith_cons_cons, List.zipWith_nil_right, List.getD_cons_zero,
+    loglikGradEntry_ofFn]
+
 /-- **the model's gradient entry is the derivative of the model's value** (zero-mean GP, every n):
     near θ the kernel matrix is `L Lᵀ` with `L` lower triangular with positive diagonal. -/
 theorem loglik_list_hasDerivAt {K L : ℝ → Matrix (Fin n) (Fin n) ℝ} {K' : Matrix (Fin n) (Fin n) ℝ} {θ : ℝ}
@@ -421,6 +429,24 @@ theorem loglik_list_gls_hasDerivAt {K L : ℝ → Matrix (Fin n) (Fin n) ℝ} {K
   refine (loglikGLS_hasDerivAt hK hpos hsymm P hG s y).congr_of_eventuallyEq ?_
   filter_upwards [hchol] with t ht
   rw [loglik_ofFn, ht.1, logdet_cholesky _ ht.2.1 ht.2.2]
+
+/-- **log domain** (`log_domain=True`): the hyperparameter is `exp u`; the model's entry with
+    `logScale = exp u` is the derivative with respect to `u` -/
+theorem loglik_list_gls_log_hasDerivAt {K L : ℝ → Matrix (Fin n) (Fin n) ℝ} {K' : Matrix (Fin n) (Fin n) ℝ}
+    {u : ℝ} (hK : ∀ i j, HasDerivAt (fun t => K t i j) (K' i j) (Real.exp u))
+    (hchol : ∀ᶠ t in nhds (Real.exp u),
+      K t = L t * (L t)ᵀ ∧ (∀ i j, i < j → L t i j = 0) ∧ ∀ i, 0 < L t i i)
+    (P : Matrix (Fin n) (Fin p) ℝ) (hG : (Pᵀ * (K (Real.exp u))⁻¹ * P).det ≠ 0) (s : ℝ) (y : Fin n → ℝ) :
+    HasDerivAt
+      (fun v => loglik s (List.ofFn (glsResidual P (K (Real.exp v)) y))
+        (List.ofFn ((K (Real.exp v))⁻¹ *ᵥ glsResidual P (K (Real.exp v)) y))
+        (List.ofFn fun i => L (Real.exp v) i i))
+      ((loglikGrad s (List.ofFn ((K (Real.exp u))⁻¹ *ᵥ glsResidual P (K (Real.exp u)) y))
+        (ofFnM (K (Real.exp u))⁻¹) [ofFnM K'] [Real.exp u]).getD 0 0) u := by
+  have h := loglik_list_gls_hasDerivAt hK hchol P hG s y
+  rw [loglikGrad_ofFn] at h
+  rw [loglikGrad_ofFn_scale]
+  exact h.comp u (Real.hasDerivAt_exp u)
 
 /-- the hypotheses on `K θ` and `P` follow from positive definiteness and full column rank -/
 theorem gls_hyp_of_posDef {K : Matrix (Fin n) (Fin n) ℝ} (hK : K.PosDef) (P : Matrix (Fin n) (Fin p) ℝ)
